@@ -50,6 +50,21 @@ def small_eval(e: ast.expr, env: dict[str, int]) -> int:
     raise AnalysisError(f"expression outside the small integer language: {ast.unparse(e)}")
 
 
+def log_queues_unbounded(m: Model, r: Report, rid: str) -> int:
+    """The queues between the logging callers and the writer threads are unbounded: logging.handlers.QueueHandler enqueues with put_nowait, so a full queue drops
+    the record (handleError) instead of waiting - a burst while the compressor lags would lose records."""
+    logm = m.module(LOG)
+    n = 0
+    for c in ast.walk(logm.tree):
+        if isinstance(c, ast.Call) and isinstance(c.func, ast.Name) and c.func.id == "Queue":
+            n += 1
+            size = c.args[0] if c.args else next((k.value for k in c.keywords if k.arg == "maxsize"), None)
+            v = 0 if size is None else m.try_fold(logm, size, default="?")
+            r.check(isinstance(v, int) and v <= 0, rid, f"{LOG}#log-queue-unbounded@{n}", f"a log queue is created with maxsize={ast.unparse(size) if size is not None else 0}: "
+                    "QueueHandler.enqueue uses put_nowait, records beyond the limit are dropped silently", loc=f"{logm.relpath}:{c.lineno}")
+    return n
+
+
 def zstd_close_rules(m: Model, r: Report, rid: str) -> None:
     """_ZstdFileHandler.close: queue handler closed, listener stopped (drained) iff it runs, then flush + close on every path.  Shared by C17 (the
     log is complete and readable) and C15 (closing the log is the last bookkeeping step of a run)."""
@@ -136,6 +151,8 @@ def run(m: Model, r: Report, tier: str) -> None:
     if n_set < 1:
         raise AnalysisError("PenlogReader: no assignment of self._current_line outside __init__")
     zstd_close_rules(m, r, "R9")
+    if log_queues_unbounded(m, r, "R9") < 2:
+        raise AnalysisError("the queues of the log handlers were not found")
 
     # optional keys: present -> the value, absent -> None (evaluated for both cases)
     from sa import miniterp
